@@ -82,6 +82,12 @@ func check(c Case, st *stats) (fs []fail) {
 		if c.CAFile == "garbage" && c.LoadedCA == "" {
 			st.outcomes["may:ca-file-without-certificates-gives-empty-pool-no-error"]++
 		}
+		if bundleCertAfterForeign(c.CAFile) {
+			st.outcomes["config-from-ca-bundle-with-certificate-after-foreign-block"]++
+		}
+		if len(caFileMay(c.CAFile)) > 0 && len(rf.rootMay) > 0 && o.cfg.RootCAs != nil && len(o.cfg.RootCAs.Subjects()) == len(rf.rootMust) { //nolint:staticcheck
+			st.outcomes["may:certificate-block-with-headers-not-trusted"]++
+		}
 		if c.Insecure && c.ServerName == "" && !o.cfg.InsecureSkipVerify {
 			st.outcomes["may:requested-skip-not-applied"]++
 		}
@@ -485,6 +491,21 @@ func main() {
 		}
 	}
 	nF := len(shards) - nA - nB1 - nB2 - nE
+	// sweep G: shape and order of the CA bundle: every sequence with repetition of 1..3 blocks of
+	// the block alphabet (two authorities, text, three kinds of foreign block, a certificate block
+	// with headers, an unparsable certificate block) x loaded CA x pool x 2 flag sets, fields
+	// through every entry point + handshakes with servers of both authorities and of an unsupplied one
+	gNames := bundleNames()
+	for _, ca := range gNames {
+		for _, lca := range []string{"", "C"} {
+			for _, pool := range []string{"", "P"} {
+				shards = append(shards, shard{"G", identity{}, roots{ca, lca, pool}, flF, modesF})
+			}
+		}
+	}
+	nG := len(shards) - nA - nB1 - nB2 - nE - nF
+	r.Set("sweep_G_ca_bundle_shape_and_order", map[string]any{"block_alphabet": bundleTokens, "block_alphabet_meaning": "A,B plain CERTIFICATE blocks of two authorities; T text that is not PEM; P EC PARAMETERS; L X509 CRL; K EC PRIVATE KEY; H CERTIFICATE block with PEM headers; Z CERTIFICATE block without a certificate inside",
+		"max_blocks": bundleMaxBlocks, "bundles": len(gNames), "loaded_ca": 2, "pool": 2, "flags": len(flF), "modes": len(modesF), "handshake_scenarios": modesF[len(modesF)-1].scen})
 	r.Set("sweep_E_edge_server_names", map[string]any{"names": names, "field_cases": len(flE) * len(eids) * len(full.roots()) * len(modesA), "handshake_configs": len(flEh) * 2 * len(b1roots) * 2, "scenarios": escen})
 	r.Set("sweep_F_edge_file_shapes", map[string]any{"cert_file": fCert, "key_file": fKey, "ca_file": fCA, "identities": len(fids), "roots": len(fCA) * 4, "flags": len(flF), "modes": len(modesF)})
 
@@ -503,7 +524,7 @@ func main() {
 		"cases": (len(full.identities()) + wrapperIDs*(len(modesA)-1)) * len(full.roots()) * len(flA)})
 	r.Set("sweep_B1_identity_handshakes", map[string]int{"identities": len(hsIdent.identities()), "roots": len(b1roots), "flags": len(b1flags), "modes": len(b1modes), "scenarios": len(scen)})
 	r.Set("sweep_B2_verification_handshakes", map[string]int{"identities": len(b2ids), "roots": len(full.roots()), "flags": len(flB2), "modes": len(b2modes), "scenarios": len(scen)})
-	r.Set("shards", map[string]int{"A": nA, "B1": nB1, "B2": nB2, "E": nE, "F": nF})
+	r.Set("shards", map[string]int{"A": nA, "B1": nB1, "B2": nB2, "E": nE, "F": nF, "G": nG})
 
 	// debugging aid (never set by registered commands): C18_SWEEPS=A,B1,B2 restricts the run; such a run is not exhaustive
 	restricted := false
@@ -661,7 +682,7 @@ func main() {
 		"http.Transport semantics are emulated for tls.Client handshakes by cloning the returned configuration and defaulting ServerName to the dialled host; the HTTP mode uses the returned transport itself",
 	)
 	M.cleanup()
-	r.Finish("sweep A: full product certificate file x key file x loaded certificate x loaded key x CA file x loaded CA x pool x server name x insecure x callback x tickets x cache (x entry point: quick = TLSClientAuth and TLSClient over everything; thorough = TLSClientAuth over everything, TLSTransport and TLSClient over the full product restricted to a 375-identity sub-alphabet), one call of the real entry point each, every field clause judged; sweeps B1/B2: the stated sub-products x server scenarios, a fresh call of the entry point plus one real TLS handshake over a buffered in-memory pipe against an in-process tls.Server each (through tls.Client on the returned configuration, or through http.Client.Do / RoundTrip of the returned object). evaluations = calls of TLSClientAuth/TLSTransport/TLSClient. non-trivial = first call of a case that returned a configuration (all field clauses evaluated) or returned an error where the reference demands one (certificate supplied, no usable pair); cases are distinct by construction (the enumerators never repeat an (options, entry point, mode) tuple within a sweep). sweep E (edge values of the server name: IP literals v4/v6/v4-mapped/bracketed, trailing dot, case variants, punycode and raw IDN, runes beyond the BMP, space/NUL/CR LF/TAB/DEL, invalid UTF-8, BOM, U+2028, syntax look-alikes, prefixes, over-long names) x insecure x callback x cache x 3 identities x every root combination x entry point for the fields, and x 3 root baselines x 7 servers (DNS- and IP-named certificates of a supplied and of an unsupplied issuer) for handshakes, the name match being three-valued (byte-equal MUST, equal after case/trailing-dot/bracket/IPv4-mapped folding MAY, else MUST NOT); sweep F (edge shapes of files: bundles in either order, explanatory text before the block, CRLF, garbage after the block, empty file, single-space path, NUL in the path, valid bundle at a path with spaces and non-ASCII) full product certificate file x key file x CA file x loaded CA x pool x 2 flag sets x entry point + handshakes. history sweeps H-CA/H-ID/H-X: every ordered tuple with repetition of 2..3 (H-X: 2) steps of the stated step alphabets, executed as consecutive calls in one process on paths private to the sequence whose content is rewritten in place, made garbage or removed before each call; every call is judged with the per-call oracle for the material on disk at that moment, configurations returned earlier are re-judged after every later call, pairs additionally run handshakes on the last call; order reversal: one list of colliding cases over static files run forward and backward in one history, same result per case demanded", !restricted)
+	r.Finish("sweep A: full product certificate file x key file x loaded certificate x loaded key x CA file x loaded CA x pool x server name x insecure x callback x tickets x cache (x entry point: quick = TLSClientAuth and TLSClient over everything; thorough = TLSClientAuth over everything, TLSTransport and TLSClient over the full product restricted to a 375-identity sub-alphabet), one call of the real entry point each, every field clause judged; sweeps B1/B2: the stated sub-products x server scenarios, a fresh call of the entry point plus one real TLS handshake over a buffered in-memory pipe against an in-process tls.Server each (through tls.Client on the returned configuration, or through http.Client.Do / RoundTrip of the returned object). evaluations = calls of TLSClientAuth/TLSTransport/TLSClient. non-trivial = first call of a case that returned a configuration (all field clauses evaluated) or returned an error where the reference demands one (certificate supplied, no usable pair); cases are distinct by construction (the enumerators never repeat an (options, entry point, mode) tuple within a sweep). sweep E (edge values of the server name: IP literals v4/v6/v4-mapped/bracketed, trailing dot, case variants, punycode and raw IDN, runes beyond the BMP, space/NUL/CR LF/TAB/DEL, invalid UTF-8, BOM, U+2028, syntax look-alikes, prefixes, over-long names) x insecure x callback x cache x 3 identities x every root combination x entry point for the fields, and x 3 root baselines x 7 servers (DNS- and IP-named certificates of a supplied and of an unsupplied issuer) for handshakes, the name match being three-valued (byte-equal MUST, equal after case/trailing-dot/bracket/IPv4-mapped folding MAY, else MUST NOT); sweep F (edge shapes of files: bundles in either order, explanatory text before the block, CRLF, garbage after the block, empty file, single-space path, NUL in the path, valid bundle at a path with spaces and non-ASCII) full product certificate file x key file x CA file x loaded CA x pool x 2 flag sets x entry point + handshakes; sweep G (shape and order of the CA bundle: every sequence with repetition of 1..3 blocks out of {certificate A, certificate B, non-PEM text, EC PARAMETERS block, X509 CRL block, private-key block, CERTIFICATE block with headers, CERTIFICATE block without a certificate inside} = 584 bundle files) x loaded CA x pool x 2 flag sets x entry point + handshakes against servers of A, B and an unsupplied authority: every plain certificate block MUST be trusted wherever it stands, the block with headers MAY be, nothing else, an error is MAY as soon as a foreign block is present. history sweeps H-CA/H-ID/H-X: every ordered tuple with repetition of 2..3 (H-X: 2) steps of the stated step alphabets, executed as consecutive calls in one process on paths private to the sequence whose content is rewritten in place, made garbage or removed before each call; every call is judged with the per-call oracle for the material on disk at that moment, configurations returned earlier are re-judged after every later call, pairs additionally run handshakes on the last call; order reversal: one list of colliding cases over static files run forward and backward in one history, same result per case demanded", !restricted)
 }
 
 // edgeServerNames: representatives of the value classes a server name can take. The reference
